@@ -23,7 +23,8 @@ RULE = ("case = (condition: a guarded partial operation - `xs and xs[0] > k`, `o
         "form with other keywords around, condition broken over lines at boolean operators, comments and blank lines "
         "inside, trailing commas} x 0..2 neighbouring decorators above and below (other contracts with their own "
         "lambdas, a foreign functools.wraps decorator, comments) x nesting {function, class in a function, module} x "
-        "role {require, ensure, invariant} x error form {default, class, instance} x def/async def). Oracle: (a) "
+        "role {require, ensure, invariant} x error form {default, class, instance} x def/async def x history {fresh "
+        "file, a file that held ANOTHER violated contract at the same place before and was re-written}). Oracle: (a) "
         "CPython evaluates the condition to a falsy value without raising => the caller gets exactly the configured "
         "error; (b) the location names the generated file, a line of the decorator and the enclosing scope, the "
         "description is present; (c) ast.dump of the reported text equals ast.dump of the generated expression; (d) "
@@ -74,8 +75,23 @@ def check_case(ctx, case):
     OR.evaluate(ctext, b, list(b))
     p_set = set(exprlib.PROBES)
     del exprlib.PROBES[:]
+    reuse_path = None
+    if case.get("rewritten"):
+        # history: the same file held another contract at the same place before, and that one was violated (whatever the
+        # library remembers about a source location must not outlive the source)
+        decoy_text = RD.module_text(*(("len(self.s) > 10 ** 6", ["self"]) if role == "invariant" else ("len(s) > 10 ** 6", ["s"])), role=role, is_async=is_async, error=err_src,
+                                    layout=LY.make_layout(lay["kind"]), nest=lay["nest"], above=lay["above"],
+                                    below=lay["below"], prelude=prelude)[0]
+        decoy = RD.Module(decoy_text)
+        try:
+            RD.call(decoy, role, is_async, inputs)
+            reuse_path = decoy.path
+        finally:
+            decoy.close()
+        del exprlib.PROBES[:]
+        ctx.count("rewritten-source")
     try:
-        mod = RD.Module(text)
+        mod = RD.Module(text, path=reuse_path)
     except BaseException as e:  # noqa
         raise core.HarnessError("generated module does not import: %r\n%s" % (e, text))
     try:
@@ -194,7 +210,8 @@ def st_case(draw, tier):
         feats = list(feats) + ["shadowing-globals"]
     return {"text": text, "params": GR.free_params(text), "features": feats, "role": role, "shadow": shadow,
             "async": role != "invariant" and draw(st.integers(0, 3)) == 0, "inputs": inputs,
-            "layout": draw(LY.st_layout(role)), "error": draw(st.sampled_from(["default", "default", "class", "instance"]))}
+            "layout": draw(LY.st_layout(role)), "error": draw(st.sampled_from(["default", "default", "class", "instance"])),
+            "rewritten": draw(st.integers(0, 5)) == 0}
 
 
 def run(ctx, tier, seed, shard, nshards):
